@@ -90,9 +90,9 @@ def component_missing_kind(net, action: str, o: Dict) -> Optional[str]:
         return "node"
     if "service_name" in o and o["service_name"] not in node.software_manager.software:
         return "service"
-    if "application_name" in o and not action.endswith(("-install", "-remove")) and \
+    if "application_name" in o and not action.endswith("-install") and \
             o["application_name"] not in node.software_manager.software:
-        return "application"
+        return "application"  # incl. node-application-remove of something that is not (or no longer) installed
     if "nic_num" in o and o["nic_num"] not in node.network_interface:
         return "nic"
     if "port_num" in o and o["port_num"] not in node.network_interface:
